@@ -10,8 +10,8 @@ import Eliot.Properties.C04
   current action, `probe`;
 * the **denotation** `denS`/`denB`: "what the program performed" as a forest (`T`/`F`) of actions and
   messages carrying what was logged (`MSpec`/`Spec`, success fields, outcome), defined without the
-  machine: no action table, no context variable, no levels, no destinations — only the two
-  counters every run consumes (clock reads = message ids, `uuid4()` calls);
+  machine: no action table, no context variable, no levels, no destinations — only the three
+  counters every run consumes (clock reads = message ids, `uuid4()` calls, exception-extractor calls);
 * the **expected dicts** `T.dicts`/`F.dicts`: the dicts such a forest puts on the wire when it is the
   content of action `(u, lvl)` from position `k` on, in depth-first emission order (a task started
   inside an action is emitted in place but takes no position);
@@ -60,32 +60,49 @@ def startDict (σ : Nat → FV → FV) (u : Nat) (L : Level) (tick : Nat) (sp : 
     (((((sp.fields.set "action_status" (.str "started")).set "timestamp" (.ts tick)).set "task_uuid" (.uuid u)).set
       "action_type" (.str sp.atype)).set "task_level" (.lvl L))
 
-/-- the end message: success fields (serialized) or the exception's class and text -/
+/-- the end message: success fields (serialized), or the fields `xf` extracted from the exception
+with the exception's class and text (and the structural keys) written over them -/
 def endDict (env : Env) (σ : Nat → FV → FV) (u : Nat) (L : Level) (tick : Nat) (atype : String)
-    (sers : Option (List (String × Nat) × List (String × Nat))) (succ : Fields) : Outcome → Msg
+    (sers : Option (List (String × Nat) × List (String × Nat))) (succ xf : Fields) : Outcome → Msg
   | .ok =>
     serOpt σ (sers.map (·.2))
       (((((succ.set "action_status" (.str "succeeded")).set "timestamp" (.ts tick)).set "task_uuid" (.uuid u)).set
         "action_type" (.str atype)).set "task_level" (.lvl L))
   | .raised e =>
     Fields.set (Fields.set (Fields.set (Fields.set
-      (Fields.set (Fields.set (Fields.set [] "exception" (.str (e.qual env))) "reason" (.str (e.safeStr env)))
+      (Fields.set (Fields.set (Fields.set xf "exception" (.str (e.qual env))) "reason" (.str (e.safeStr env)))
         "action_status" (.str "failed"))
       "timestamp" (.ts tick)) "task_uuid" (.uuid u)) "action_type" (.str atype)) "task_level" (.lvl L)
   | .stuck => []
 
-/-- what `write_traceback()` logs for exception `e` (no extractor registered) -/
-def tbSpec (env : Env) (e : Exc) : MSpec :=
-  { mtype := "eliot:traceback", fields := tracebackFields env e [] }
+/-- what `write_traceback()` logs for exception `e` whose extracted fields are `xf`: the
+traceback's own `reason` / `traceback` / `exception` written over them -/
+def tbSpec (env : Env) (e : Exc) (xf : Fields) : MSpec :=
+  { mtype := "eliot:traceback", fields := tracebackFields env e xf }
+
+/-- `get_fields_for_exception(e)` when no extractor raises, as a function: the fields returned — on
+its `k`-th call overall — by the extractor registered for the nearest class in `e`'s MRO (none
+registered along the MRO: no fields, no call), and the number of extractor calls afterwards -/
+def extOf (env : Env) (e : Exc) (k : Nat) : Fields × Nat :=
+  match firstExtractor env (env.mro (e.cls env)) with
+  | none => ([], k)
+  | some f => (match f e k with | .ok fs => fs | .error _ => [], k + 1)
+
+/-- … for the outcome of an action's body: only a failure consults an extractor -/
+def extOut (env : Env) (o : Outcome) (k : Nat) : Fields × Nat :=
+  match o with
+  | .raised e => extOf env e k
+  | _ => ([], k)
 
 /-! ## What a program performed -/
 
 mutual
 /-- an action or message the program performed; `tick`/`st`/`et` identify the message(s): the
-number of the clock read that stamped it -/
+number of the clock read that stamped it; `xf` = the fields an exception extractor returned for
+the exception that failed the action (`[]` otherwise) -/
 inductive T where
   | leaf (tick : Nat) (ms : MSpec)
-  | node (sp : Spec) (st et : Nat) (succ : Fields) (res : Outcome) (kids : F)
+  | node (sp : Spec) (st et : Nat) (succ : Fields) (res : Outcome) (xf : Fields) (kids : F)
 /-- the content of an action in order; `sep u t` = a task started (or a message logged) outside
 the action's tree: its own tree with uuid number `u`, taking no position -/
 inductive F where
@@ -113,9 +130,9 @@ def T.rootLevel : T → Level
 mutual
 def T.dicts (env : Env) (σ : Nat → FV → FV) (u : Nat) : T → Level → List Msg
   | .leaf tick ms, L => [leafDict σ u L tick ms]
-  | .node sp st et succ res kids, L =>
+  | .node sp st et succ res xf kids, L =>
     startDict σ u (L ++ [1]) st sp ::
-      (F.dicts env σ u kids L 2 ++ [endDict env σ u (L ++ [kids.len + 2]) et sp.atype sp.sers succ res])
+      (F.dicts env σ u kids L 2 ++ [endDict env σ u (L ++ [kids.len + 2]) et sp.atype sp.sers succ xf res])
 def F.dicts (env : Env) (σ : Nat → FV → FV) (u : Nat) : F → Level → Nat → List Msg
   | .nil, _, _ => []
   | .own t r, L, k => T.dicts env σ u t (L ++ [k]) ++ F.dicts env σ u r L (k + 1)
@@ -146,10 +163,11 @@ theorem F.dicts_append (env : Env) (σ : Nat → FV → FV) (u : Nat) : ∀ (f g
 
 /-! ## The denotation -/
 
-/-- the two counters a run consumes -/
+/-- the three counters a run consumes: clock reads, `uuid4()` calls, exception-extractor calls -/
 structure DS where
   tick : Nat
   nu : Nat
+  ex : Nat
 
 /-- result of the denotation: the forest performed, the outcome, the success fields of the
 current action afterwards, the counters afterwards, and whether every declared (typed) field was
@@ -163,23 +181,33 @@ structure R where
 
 def leafR (sepr : Bool) (d : DS) (s : Fields) (ms : MSpec) : R :=
   if sepr then
-    { f := .sep d.nu (.leaf d.tick ms) .nil, out := .ok, s := s, ds := { tick := d.tick + 1, nu := d.nu + 1 },
+    { f := .sep d.nu (.leaf d.tick ms) .nil, out := .ok, s := s, ds := { tick := d.tick + 1, nu := d.nu + 1, ex := d.ex },
       wf := presentOpt ms.sers ms.fields }
   else
-    { f := .own (.leaf d.tick ms) .nil, out := .ok, s := s, ds := { tick := d.tick + 1, nu := d.nu },
+    { f := .own (.leaf d.tick ms) .nil, out := .ok, s := s, ds := { tick := d.tick + 1, nu := d.nu, ex := d.ex },
       wf := presentOpt ms.sers ms.fields }
+
+/-- the result of `with <new action of spec sp>: body` from counters `d`, given the result `r` of
+the body: one node — a tree of its own (`sepr`) or the next item of the enclosing action — whose end
+message carries the success fields or what the extractor returned for the body's exception -/
+def withR (env : Env) (sepr : Bool) (sp : Spec) (d : DS) (s : Fields) (r : R) : R :=
+  { f := if sepr then .sep d.nu (T.node sp d.tick r.ds.tick r.s r.out (extOut env r.out r.ds.ex).1 r.f) .nil
+         else .own (T.node sp d.tick r.ds.tick r.s r.out (extOut env r.out r.ds.ex).1 r.f) .nil,
+    out := r.out, s := s,
+    ds := { tick := r.ds.tick + 1, nu := r.ds.nu, ex := (extOut env r.out r.ds.ex).2 },
+    wf := presentOpt (sp.sers.map (·.1)) sp.fields && r.wf &&
+      (match r.out with | .ok => presentOpt (sp.sers.map (·.2)) r.s | _ => true) }
+
+/-- `write_traceback()` for `e` from counters `d`: the extractor is consulted, then one message -/
+def tbR (env : Env) (sepr : Bool) (d : DS) (s : Fields) (e : Exc) : R :=
+  leafR sepr { d with ex := (extOf env e d.ex).2 } s (tbSpec env e (extOf env e d.ex).1)
 
 mutual
 /-- `cur` = the exception being handled, `inAct` = inside some action -/
 def denS (env : Env) (cur : Option Exc) (inAct : Bool) : Stmt → DS → Fields → R
   | .withAction task sp body, d, s =>
-    let sepr := task || !inAct
-    let r := denB env cur true body { tick := d.tick + 1, nu := if sepr then d.nu + 1 else d.nu } []
-    let t := T.node sp d.tick r.ds.tick r.s r.out r.f
-    { f := if sepr then .sep d.nu t .nil else .own t .nil, out := r.out, s := s,
-      ds := { tick := r.ds.tick + 1, nu := r.ds.nu },
-      wf := presentOpt (sp.sers.map (·.1)) sp.fields && r.wf &&
-        (match r.out with | .ok => presentOpt (sp.sers.map (·.2)) r.s | _ => true) }
+    withR env (task || !inAct) sp d s
+      (denB env cur true body { tick := d.tick + 1, nu := if (task || !inAct) = true then d.nu + 1 else d.nu, ex := d.ex } [])
   | .log ms, d, s => leafR (!inAct) d s ms
   | .raise i, d, s => { f := .nil, out := .raised (.user i), s := s, ds := d, wf := true }
   | .tryCatch body handler, d, s =>
@@ -191,7 +219,7 @@ def denS (env : Env) (cur : Option Exc) (inAct : Bool) : Stmt → DS → Fields 
     | _ => r
   | .writeTraceback, d, s =>
     match cur with
-    | some e => leafR (!inAct) d s (tbSpec env e)
+    | some e => tbR env (!inAct) d s e
     | none => { f := .nil, out := .stuck, s := s, ds := d, wf := false }
   | .addSuccess none fs, d, s => { f := .nil, out := .ok, s := s.update fs, ds := d, wf := inAct }
   | .probe _, d, s => { f := .nil, out := .ok, s := s, ds := d, wf := true }
@@ -234,15 +262,22 @@ open Sys Sys.C04
 
 /-! ## Effects of the primitives under the fragment's hypotheses -/
 
-/-- serializers are functions that do not raise, no exception extractor is registered, the
-destinations in `ds` never raise -/
+/-- serializers are functions that do not raise, registered exception extractors (for any classes,
+returning any fields, possibly different ones on every call) do not raise, the destinations in `ds`
+never raise -/
 structure EnvOK (env : Env) (σ : Nat → FV → FV) (ds : List Nat) : Prop where
   ser : ∀ sid v k, env.serialize sid v k = .ok (σ sid v)
-  ext : ∀ c, env.extractor c = none
+  ext : ∀ c f, env.extractor c = some f → ∀ e k, ∃ fs, f e k = .ok fs
   healthy : ∀ d ∈ ds, ∀ k, env.destFails d k = none
 
+/-- the hypothesis of the first version of these theorems (no extractor registered) is a special case -/
+theorem EnvOK.ofNoExtractor {env : Env} {σ : Nat → FV → FV} {ds : List Nat}
+    (ser : ∀ sid v k, env.serialize sid v k = .ok (σ sid v)) (ext : ∀ c, env.extractor c = none)
+    (healthy : ∀ d ∈ ds, ∀ k, env.destFails d k = none) : EnvOK env σ ds :=
+  ⟨ser, fun c f h => (by rw [ext c] at h; cases h), healthy⟩
+
 /-- `w'` is `w` with the action table `acts`, `dt` more clock reads, `du` more uuids and `out`
-staged; context, destinations, global fields untouched -/
+staged; context, destinations, global fields, program variables, extractor-call count untouched -/
 structure Eff (w w' : World) (acts : List Act) (dt du : Nat) (out : List Msg) : Prop where
   acts : w'.acts = acts
   ctx : w'.ctx = w.ctx
@@ -251,13 +286,16 @@ structure Eff (w w' : World) (acts : List Act) (dt du : Nat) (out : List Msg) : 
   dests : w'.dests = w.dests
   globals : w'.globals = w.globals
   stage : w'.stage = w.stage ++ out
+  ext : w'.extCalls = w.extCalls
+  vars : w'.vars = w.vars
 
-theorem Eff.refl (w : World) : Eff w w w.acts 0 0 [] := ⟨rfl, rfl, rfl, rfl, rfl, rfl, by simp⟩
+theorem Eff.refl (w : World) : Eff w w w.acts 0 0 [] := ⟨rfl, rfl, rfl, rfl, rfl, rfl, by simp, rfl, rfl⟩
 
 theorem Eff.trans {a b c : World} {x y : List Act} {t1 t2 u1 u2 : Nat} {o1 o2 : List Msg}
     (h1 : Eff a b x t1 u1 o1) (h2 : Eff b c y t2 u2 o2) : Eff a c y (t1 + t2) (u1 + u2) (o1 ++ o2) :=
   ⟨h2.acts, h2.ctx.trans h1.ctx, by rw [h2.tick, h1.tick]; omega, by rw [h2.nu, h1.nu]; omega,
-   h2.dests.trans h1.dests, h2.globals.trans h1.globals, by rw [h2.stage, h1.stage, List.append_assoc]⟩
+   h2.dests.trans h1.dests, h2.globals.trans h1.globals, by rw [h2.stage, h1.stage, List.append_assoc],
+   h2.ext.trans h1.ext, h2.vars.trans h1.vars⟩
 
 /-- the world is in the fragment's configuration: only destinations from `ds`, no global fields -/
 structure WOK (w : World) (ds : List Nat) : Prop where
@@ -279,7 +317,7 @@ theorem fanOut_core (env : Env) (m : Msg) (l : List Nat) (hh : ∀ d ∈ l, ∀ 
     have hc : (w.callDest env d m).2 = none := by simp [World.callDest, hd]
     have he : Eff w (w.callDest env d m).1 w.acts 0 0 [] := by
       simp only [World.callDest, hd]
-      exact ⟨rfl, rfl, rfl, rfl, rfl, rfl, by simp⟩
+      exact ⟨rfl, rfl, rfl, rfl, rfl, rfl, by simp, rfl, rfl⟩
     refine ⟨by simp [h1, hc], ?_⟩
     have := he.trans h2
     rw [he.acts] at this
@@ -294,9 +332,9 @@ theorem eff_send {env : Env} {σ : Nat → FV → FV} {ds : List Nat} (H : EnvOK
   · obtain ⟨h1, h2⟩ := fanOut_core env m w.dests (fun d hd => H.healthy d (hw.dests d hd))
       { w with stage := w.stage ++ [m], stageAt := w.stageAt ++ [w.dests] }
     simp only [h1, ite_self, World.reportAll]
-    exact ⟨h2.acts, h2.ctx, h2.tick, h2.nu, h2.dests, h2.globals, by rw [h2.stage]; simp⟩
+    exact ⟨h2.acts, h2.ctx, h2.tick, h2.nu, h2.dests, h2.globals, by rw [h2.stage]; simp, h2.ext, h2.vars⟩
   · simp only [World.reportAll]
-    exact ⟨rfl, rfl, rfl, rfl, rfl, rfl, rfl⟩
+    exact ⟨rfl, rfl, rfl, rfl, rfl, rfl, rfl, rfl, rfl⟩
 
 /-- `_MessageSerializer.serialize` with function serializers on a dict that has every declared key -/
 theorem serializeFields_ok {env : Env} {σ : Nat → FV → FV} {ds : List Nat} (H : EnvOK env σ ds)
@@ -333,7 +371,7 @@ theorem eff_loggerWrite {env : Env} {σ : Nat → FV → FV} {ds : List Nat} (H 
     simp only [World.loggerWrite, hk, serOpt]
     have hw' : WOK ({ w with serCalls := w.serCalls + k } : World) ds := ⟨hw.dests, hw.globals⟩
     have := eff_send H ({ w with serCalls := w.serCalls + k } : World) hw' (applyT σ ss m)
-    exact ⟨this.acts, this.ctx, this.tick, this.nu, this.dests, this.globals, this.stage⟩
+    exact ⟨this.acts, this.ctx, this.tick, this.nu, this.dests, this.globals, this.stage, this.ext, this.vars⟩
 
 theorem present_set (ss : List (String × Nat)) (m : Fields) (k : String) (v : FV) (h : present ss m = true) :
     present ss (m.set k v) = true := by
@@ -354,9 +392,48 @@ theorem firstExtractor_none {env : Env} (h : ∀ c, env.extractor c = none) (l :
   | nil => rfl
   | cons c cs ih => simp [firstExtractor, h, ih]
 
+theorem firstExtractor_mem {env : Env} {l : List Nat} {f : Exc → Nat → Except Exc Fields}
+    (h : firstExtractor env l = some f) : ∃ c, env.extractor c = some f := by
+  induction l with
+  | nil => cases h
+  | cons c cs ih =>
+    simp only [firstExtractor] at h
+    cases hc : env.extractor c with
+    | none => rw [hc] at h; exact ih h
+    | some g => rw [hc] at h; cases h; exact ⟨c, hc⟩
+
+/-- `get_fields_for_exception` when no registered extractor raises: one extractor call (if one is
+registered along the MRO), its fields returned, nothing logged -/
+theorem getFields_ok {env : Env} (h : ∀ c f, env.extractor c = some f → ∀ e k, ∃ fs, f e k = .ok fs) (w : World) (e : Exc) :
+    World.getFields env w e = ({ w with extCalls := (extOf env e w.extCalls).2 }, (extOf env e w.extCalls).1) := by
+  unfold World.getFields extOf
+  cases hf : firstExtractor env (env.mro (e.cls env)) with
+  | none => rfl
+  | some f =>
+    obtain ⟨c, hc⟩ := firstExtractor_mem hf
+    obtain ⟨fs, hfs⟩ := h c f hc e w.extCalls
+    simp only [hfs]
+
 theorem getFields_none {env : Env} (h : ∀ c, env.extractor c = none) (w : World) (e : Exc) :
     World.getFields env w e = (w, []) := by
   simp [World.getFields, firstExtractor_none h]
+
+theorem extOf_none {env : Env} (h : ∀ c, env.extractor c = none) (e : Exc) (k : Nat) : extOf env e k = ([], k) := by
+  simp [extOf, firstExtractor_none h]
+
+/-- **nearest class in the MRO**: the extractor consulted is the one registered for the first class
+of `e`'s MRO that has one -/
+theorem extOf_nearest {env : Env} {e : Exc} {pre post : List Nat} {c : Nat} {f : Exc → Nat → Except Exc Fields}
+    (hm : env.mro (e.cls env) = pre ++ c :: post) (hpre : ∀ c' ∈ pre, env.extractor c' = none) (hc : env.extractor c = some f)
+    (k : Nat) (fs : Fields) (hf : f e k = .ok fs) : extOf env e k = (fs, k + 1) := by
+  have : firstExtractor env (pre ++ c :: post) = some f := by
+    clear hm
+    induction pre with
+    | nil => simp [firstExtractor, hc]
+    | cons a r ih =>
+      simp only [List.cons_append, firstExtractor, hpre a List.mem_cons_self]
+      exact ih (fun c' h' => hpre c' (List.mem_cons_of_mem _ h'))
+  simp only [extOf, hm, this, hf]
 
 theorem lt_of_get {w : World} {h : Nat} {a : Act} (ha : w.acts[h]? = some a) : h < w.acts.length := by
   rcases Nat.lt_or_ge h w.acts.length with hl | hl
@@ -390,7 +467,7 @@ theorem eff_log_in (w : World) (hw : WOK w ds) (c : Nat) (a : Act) (hc : w.ctx =
   simp only [World.logMessage, World.currentOrFresh, hc, World.buildLog, World.clock, World.nextLevel, ha,
     Option.map_some, Option.getD_some]
   refine Eff.thenWrite H (A := w.acts.set c { a with last := a.last + 1 }) (dt := 1) (du := 0) ?_ hw _ _ hp'
-  exact ⟨rfl, hc.symm, rfl, rfl, rfl, rfl, by simp⟩
+  exact ⟨rfl, hc.symm, rfl, rfl, rfl, rfl, by simp, rfl, rfl⟩
 
 /-- a message logged outside any action: a fresh one-message task -/
 theorem eff_log_out (w : World) (hw : WOK w ds) (hc : w.ctx = none) (ms : MSpec)
@@ -402,10 +479,13 @@ theorem eff_log_out (w : World) (hw : WOK w ds) (hc : w.ctx = none) (ms : MSpec)
   simp only [World.logMessage, World.currentOrFresh, hc, World.freshAction, World.buildLog, World.clock, World.nextLevel,
     List.getElem?_concat_length, Option.map_some, Option.getD_some, List.nil_append, Nat.zero_add]
   refine Eff.thenWrite H (A := w.acts ++ [{ uuid := w.nextUuid, level := [], last := 1 }]) (dt := 1) (du := 1) ?_ hw _ _ hp'
-  exact ⟨by simp, hc.symm, rfl, rfl, rfl, rfl, by simp⟩
+  exact ⟨by simp, hc.symm, rfl, rfl, rfl, rfl, by simp, rfl, rfl⟩
 
-theorem writeTraceback_eq (w : World) (e : Exc) : w.writeTraceback env e = w.logMessage env (tbSpec env e) := by
-  simp only [World.writeTraceback, getFields_none H.ext, World.logNoSer, World.logMessage, World.loggerWrite, tbSpec]
+/-- `write_traceback()` = one extractor consultation, then an ordinary untyped message -/
+theorem writeTraceback_eq (w : World) (e : Exc) :
+    w.writeTraceback env e =
+      ({ w with extCalls := (extOf env e w.extCalls).2 } : World).logMessage env (tbSpec env e (extOf env e w.extCalls).1) := by
+  simp only [World.writeTraceback, getFields_ok H.ext, World.logNoSer, World.logMessage, World.loggerWrite, tbSpec]
 
 /-- `Action._start` of action `h` -/
 theorem eff_startRec (w : World) (hw : WOK w ds) (h : Nat) (a : Act) (ha : w.acts[h]? = some a) (fields : Fields)
@@ -417,7 +497,7 @@ theorem eff_startRec (w : World) (hw : WOK w ds) (h : Nat) (a : Act) (ha : w.act
     (presentOpt_set _ _ "action_status" (.str "started") hp))))
   simp only [World.startRec, ha, World.clock, World.nextLevel]
   refine Eff.thenWrite H (A := w.acts.set h { a with last := a.last + 1 }) (dt := 1) (du := 0) ?_ hw _ _ hp'
-  exact ⟨rfl, rfl, rfl, rfl, rfl, rfl, by simp⟩
+  exact ⟨rfl, rfl, rfl, rfl, rfl, rfl, by simp, rfl, rfl⟩
 
 /-- `start_action` inside action `p`: `p.child()` + `_start` -/
 theorem eff_start_child (w : World) (hw : WOK w ds) (p : Nat) (pa : Act) (hc : w.ctx = some p) (ha : w.acts[p]? = some pa)
@@ -439,7 +519,7 @@ theorem eff_start_child (w : World) (hw : WOK w ds) (p : Nat) (pa : Act) (hc : w
         lastSlot := some (p, pa.last + 1) } : World) ⟨hw.dests, hw.globals⟩ w.acts.length
     { uuid := pa.uuid, level := pa.level ++ [pa.last + 1], atype := sp.atype, sers := sp.sers }
     (by simp) sp.fields hp
-  exact ⟨by rw [e.acts]; simp, e.ctx.trans hc.symm, e.tick, e.nu, e.dests, e.globals, e.stage⟩
+  exact ⟨by rw [e.acts]; simp, e.ctx.trans hc.symm, e.tick, e.nu, e.dests, e.globals, e.stage, e.ext, e.vars⟩
 
 /-- `start_task`, or `start_action` outside any action: a fresh tree -/
 theorem eff_start_fresh (w : World) (hw : WOK w ds) (task : Bool) (hc : task = true ∨ w.ctx = none)
@@ -460,13 +540,14 @@ theorem eff_start_fresh (w : World) (hw : WOK w ds) (task : Bool) (hc : task = t
         nextUuid := w.nextUuid + 1 } : World) ⟨hw.dests, hw.globals⟩ w.acts.length
     { uuid := w.nextUuid, level := [], atype := sp.atype, sers := sp.sers }
     (by simp) sp.fields hp
-  exact ⟨by rw [e.acts]; simp, e.ctx, e.tick, e.nu, e.dests, e.globals, e.stage⟩
+  exact ⟨by rw [e.acts]; simp, e.ctx, e.tick, e.nu, e.dests, e.globals, e.stage, e.ext, e.vars⟩
 
-/-- `Action.finish(exception)` of an unfinished action -/
+/-- `Action.finish(exception)` of an unfinished action (a failure consults the extractor first) -/
 theorem eff_finish (w : World) (hw : WOK w ds) (h : Nat) (a : Act) (ha : w.acts[h]? = some a) (hf : a.finished = false)
     (res : Outcome) (hres : res ≠ .stuck) (hp : res = .ok → presentOpt (a.sers.map (·.2)) a.succ = true) :
-    Eff w (w.finishRec env h (outcomeExc res)) (w.acts.set h { a with finished := true, last := a.last + 1 }) 1 0
-      [endDict env σ a.uuid (a.level ++ [a.last + 1]) w.tick a.atype a.sers a.succ res] := by
+    Eff { w with extCalls := (extOut env res w.extCalls).2 } (w.finishRec env h (outcomeExc res))
+      (w.acts.set h { a with finished := true, last := a.last + 1 }) 1 0
+      [endDict env σ a.uuid (a.level ++ [a.last + 1]) w.tick a.atype a.sers a.succ (extOut env res w.extCalls).1 res] := by
   have hlt := lt_of_get ha
   cases res with
   | stuck => exact absurd rfl hres
@@ -475,19 +556,22 @@ theorem eff_finish (w : World) (hw : WOK w ds) (h : Nat) (a : Act) (ha : w.acts[
       (presentOpt_set _ _ "task_uuid" (.uuid a.uuid) (presentOpt_set _ _ "timestamp" (.ts w.tick)
       (presentOpt_set _ _ "action_status" (.str "succeeded") (hp rfl)))))
     simp only [World.finishRec, ha, hf, outcomeExc, World.clock, World.nextLevel, List.getElem?_set_self hlt,
-      Bool.false_eq_true, if_false, endDict]
-    refine Eff.thenWrite H (A := w.acts.set h { a with finished := true, last := a.last + 1 }) (dt := 1) (du := 0) ?_ hw _ _ hp'
-    exact ⟨by simp, rfl, rfl, rfl, rfl, rfl, by simp⟩
+      Bool.false_eq_true, if_false, endDict, extOut]
+    refine Eff.thenWrite H (w := { w with extCalls := w.extCalls })
+      (A := w.acts.set h { a with finished := true, last := a.last + 1 }) (dt := 1) (du := 0) ?_
+      ⟨hw.dests, hw.globals⟩ _ _ hp'
+    exact ⟨by simp, rfl, rfl, rfl, rfl, rfl, by simp, rfl, rfl⟩
   | raised e =>
-    simp only [World.finishRec, ha, hf, outcomeExc, getFields_none H.ext, World.clock, World.nextLevel,
-      List.getElem?_set_self hlt, Bool.false_eq_true, if_false, endDict]
+    simp only [World.finishRec, ha, hf, outcomeExc, getFields_ok H.ext, World.clock, World.nextLevel,
+      List.getElem?_set_self hlt, Bool.false_eq_true, if_false, endDict, extOut]
     have hs : ∀ m : Msg, serOpt σ (a.sers.map (fun _ => ([] : List (String × Nat)))) m = m := by
       intro m; cases a.sers <;> rfl
     have hp' : ∀ m : Msg, presentOpt (a.sers.map (fun _ => ([] : List (String × Nat)))) m = true := by
       intro m; cases a.sers <;> rfl
-    refine Eff.thenWrite' H (A := w.acts.set h { a with finished := true, last := a.last + 1 }) (dt := 1) (du := 0)
-      ?_ hw _ _ (hp' _) _ (hs _).symm
-    exact ⟨by simp, rfl, rfl, rfl, rfl, rfl, by simp⟩
+    refine Eff.thenWrite' H (w := { w with extCalls := (extOf env e w.extCalls).2 })
+      (A := w.acts.set h { a with finished := true, last := a.last + 1 }) (dt := 1) (du := 0)
+      ?_ ⟨hw.dests, hw.globals⟩ _ _ (hp' _) _ (hs _).symm
+    exact ⟨by simp, rfl, rfl, rfl, rfl, rfl, by simp, rfl, rfl⟩
 
 end prims
 
@@ -511,6 +595,7 @@ structure Pre (ds : List Nat) (w : World) (c : Nat) (i : AI) (n : Nat) (s : Fiel
   ctx : w.ctx = some c
   tick : w.tick = d.tick
   nu : w.nextUuid = d.nu
+  ex : w.extCalls = d.ex
 
 /-- after running something whose denotation is `r` inside action `c` -/
 structure Post (env : Env) (σ : Nat → FV → FV) (ds : List Nat) (w w' : World) (c : Nat) (i : AI) (n : Nat) (r : R) : Prop where
@@ -524,16 +609,17 @@ structure Post (env : Env) (σ : Nat → FV → FV) (ds : List Nat) (w w' : Worl
   ctx : w'.ctx = w.ctx
   tick : w'.tick = r.ds.tick
   nu : w'.nextUuid = r.ds.nu
+  ex : w'.extCalls = r.ds.ex
   wok : WOK w' ds
 
 theorem Post.pre {env : Env} {σ : Nat → FV → FV} {ds : List Nat} {w w' : World} {c : Nat} {i : AI} {n : Nat} {r : R}
     (p : Post env σ ds w w' c i n r) (hc : w.ctx = some c) : Pre ds w' c i (n + r.f.len) r.s r.ds :=
-  ⟨p.wok, p.good, p.ctx.trans hc, p.tick, p.nu⟩
+  ⟨p.wok, p.good, p.ctx.trans hc, p.tick, p.nu, p.ex⟩
 
 theorem Post.trans' {env : Env} {σ : Nat → FV → FV} {ds : List Nat} {w w1 w2 : World} {c : Nat} {i : AI} {n : Nat}
     {r1 r2 : R} (h1 : Post env σ ds w w1 c i n r1) (h2 : Post env σ ds w1 w2 c i (n + r1.f.len) r2) (b : Bool) :
     Post env σ ds w w2 c i n { f := r1.f.append r2.f, out := r2.out, s := r2.s, ds := r2.ds, wf := b } := by
-  refine ⟨?_, ?_, ?_, Nat.le_trans h1.grow h2.grow, h2.ctx.trans h1.ctx, h2.tick, h2.nu, h2.wok⟩
+  refine ⟨?_, ?_, ?_, Nat.le_trans h1.grow h2.grow, h2.ctx.trans h1.ctx, h2.tick, h2.nu, h2.ex, h2.wok⟩
   · have e : n + r1.f.len + 1 = n + 1 + r1.f.len := by omega
     rw [h2.stage, h1.stage, F.dicts_append, List.append_assoc, e]
   · have := h2.good
@@ -541,38 +627,46 @@ theorem Post.trans' {env : Env} {σ : Nat → FV → FV} {ds : List Nat} {w w1 w
   · intro h hh hne
     rw [h2.frame h (Nat.lt_of_lt_of_le hh h1.grow) hne, h1.frame h hh hne]
 
+/-- the extractor-call count of the starting world is not part of what `Post` says about it -/
+theorem Post.ofExt {env : Env} {σ : Nat → FV → FV} {ds : List Nat} {w w' : World} {c : Nat} {i : AI} {n : Nat} {r : R} {k : Nat}
+    (p : Post env σ ds { w with extCalls := k } w' c i n r) : Post env σ ds w w' c i n r :=
+  ⟨p.stage, p.good, p.frame, p.grow, p.ctx, p.tick, p.nu, p.ex, p.wok⟩
+
 /-- nothing happened (`raise`, `probe`) -/
 theorem Post.same {env : Env} {σ : Nat → FV → FV} {ds : List Nat} {w w' : World} {c : Nat} {i : AI} {n : Nat} {s : Fields} {d : DS}
     (pre : Pre ds w c i n s d) (ha : w'.acts = w.acts) (hs : w'.stage = w.stage) (hc : w'.ctx = w.ctx) (ht : w'.tick = w.tick)
-    (hn : w'.nextUuid = w.nextUuid) (hd : w'.dests = w.dests) (hg : w'.globals = w.globals) (o : Outcome) (b : Bool) :
+    (hn : w'.nextUuid = w.nextUuid) (hx : w'.extCalls = w.extCalls) (hd : w'.dests = w.dests) (hg : w'.globals = w.globals)
+    (o : Outcome) (b : Bool) :
     Post env σ ds w w' c i n { f := .nil, out := o, s := s, ds := d, wf := b } :=
   ⟨by simp [F.dicts, hs], by simpa [F.len, ha] using pre.good, fun h _ _ => by rw [ha], Nat.le_of_eq (by rw [ha]), hc, ht.trans pre.tick,
-   hn.trans pre.nu, ⟨by rw [hd]; exact pre.wok.dests, by rw [hg]; exact pre.wok.globals⟩⟩
+   hn.trans pre.nu, hx.trans pre.ex, ⟨by rw [hd]; exact pre.wok.dests, by rw [hg]; exact pre.wok.globals⟩⟩
 
 /-- what the induction establishes for a statement / block with denotation `r` -/
 def Emits (env : Env) (σ : Nat → FV → FV) (ds : List Nat) (run : World → World × Outcome) (den : DS → Fields → R) : Prop :=
   ∀ (w : World) (c : Nat) (i : AI) (n : Nat) (s : Fields) (d : DS), Pre ds w c i n s d → (den d s).wf = true →
     Post env σ ds w (run w).1 c i n (den d s) ∧ (run w).2 = (den d s).out ∧ (den d s).out ≠ .stuck
 
-/-- the part of `with <new action>:` after the action `h` has been created and started:
-enter, body, exit, `finish`.  `A` = the action table before `h` was appended. -/
-theorem run_action {env : Env} {σ : Nat → FV → FV} {ds : List Nat} (H : EnvOK env σ ds) {run : World → World × Outcome}
-    {den : DS → Fields → R} (hb : Emits env σ ds run den) (W1 : World) (A : List Act) (i' : AI) (d1 : DS)
-    (hw : WOK W1 ds) (hA : W1.acts = A ++ [i'.act 1 []]) (ht : W1.tick = d1.tick) (hn : W1.nextUuid = d1.nu)
-    (hwf : (den d1 []).wf = true)
-    (hps : (den d1 []).out = .ok → presentOpt (i'.sers.map (·.2)) (den d1 []).s = true) :
-    let W2 := (withBlock env W1 A.length run).1
-    let rb := den d1 []
-    W2.stage = W1.stage ++ (F.dicts env σ i'.uuid rb.f i'.level 2 ++
-      [endDict env σ i'.uuid (i'.level ++ [rb.f.len + 2]) rb.ds.tick i'.atype i'.sers rb.s rb.out]) ∧
-    (∀ h, h < A.length → W2.acts[h]? = A[h]?) ∧ A.length + 1 ≤ W2.acts.length ∧ W2.ctx = W1.ctx ∧
-    W2.tick = rb.ds.tick + 1 ∧ W2.nextUuid = rb.ds.nu ∧ WOK W2 ds ∧
-    (withBlock env W1 A.length run).2 = rb.out ∧ rb.out ≠ .stuck := by
+/-- `with <action h>:` on an action that exists, was started and is unfinished, with `k` positions
+handed out and success fields `sx`: enter, body, exit, `finish` (a failure consults the extractor
+first). -/
+theorem run_handle {env : Env} {σ : Nat → FV → FV} {ds : List Nat} (H : EnvOK env σ ds) {run : World → World × Outcome}
+    {den : DS → Fields → R} (hb : Emits env σ ds run den) (W1 : World) (h : Nat) (i' : AI) (k : Nat) (sx : Fields) (d1 : DS)
+    (hw : WOK W1 ds) (hA : W1.acts[h]? = some (i'.act k sx)) (ht : W1.tick = d1.tick) (hn : W1.nextUuid = d1.nu)
+    (hx : W1.extCalls = d1.ex) (hwf : (den d1 sx).wf = true)
+    (hps : (den d1 sx).out = .ok → presentOpt (i'.sers.map (·.2)) (den d1 sx).s = true) :
+    let W2 := (withBlock env W1 h run).1
+    let rb := den d1 sx
+    W2.stage = W1.stage ++ (F.dicts env σ i'.uuid rb.f i'.level (k + 1) ++
+      [endDict env σ i'.uuid (i'.level ++ [k + rb.f.len + 1]) rb.ds.tick i'.atype i'.sers rb.s
+        (extOut env rb.out rb.ds.ex).1 rb.out]) ∧
+    (∀ g, g < W1.acts.length → g ≠ h → W2.acts[g]? = W1.acts[g]?) ∧ W1.acts.length ≤ W2.acts.length ∧ W2.ctx = W1.ctx ∧
+    W2.tick = rb.ds.tick + 1 ∧ W2.nextUuid = rb.ds.nu ∧ W2.extCalls = (extOut env rb.out rb.ds.ex).2 ∧ WOK W2 ds ∧
+    (withBlock env W1 h run).2 = rb.out ∧ rb.out ≠ .stuck := by
   intro W2 rb
-  have pre : Pre ds ({ W1 with ctx := some A.length } : World) A.length i' 1 [] d1 :=
-    ⟨⟨hw.dests, hw.globals⟩, by simp [hA], rfl, ht, hn⟩
+  have pre : Pre ds ({ W1 with ctx := some h } : World) h i' k sx d1 :=
+    ⟨⟨hw.dests, hw.globals⟩, hA, rfl, ht, hn, hx⟩
   obtain ⟨post, hout, hns⟩ := hb _ _ _ _ _ _ pre hwf
-  cases hrun : run ({ W1 with ctx := some A.length } : World) with
+  cases hrun : run ({ W1 with ctx := some h } : World) with
   | mk Wb ob =>
   rw [hrun] at post hout
   simp only at post hout
@@ -581,33 +675,62 @@ theorem run_action {env : Env} {σ : Nat → FV → FV} {ds : List Nat} (H : Env
   have hfs : Wf.stage = Wb.stage := by rw [hWf]
   have hft : Wf.tick = Wb.tick := by rw [hWf]
   have hfn : Wf.nextUuid = Wb.nextUuid := by rw [hWf]
+  have hfx : Wf.extCalls = Wb.extCalls := by rw [hWf]
   have hfc : Wf.ctx = W1.ctx := by rw [hWf]
   have hfw : WOK Wf ds := ⟨by rw [hWf]; exact post.wok.dests, by rw [hWf]; exact post.wok.globals⟩
-  have hW2 : W2 = World.finishRec env Wf A.length (outcomeExc rb.out) := by
+  have hW2 : W2 = World.finishRec env Wf h (outcomeExc rb.out) := by
     simp only [W2, withBlock, hrun, hout, rb, hWf]
-  have e1 : 1 + rb.f.len + 1 = rb.f.len + 2 := by omega
-  have e : Eff Wf W2 (Wb.acts.set A.length { i'.act (1 + rb.f.len) rb.s with finished := true, last := 1 + rb.f.len + 1 }) 1 0
-      [endDict env σ i'.uuid (i'.level ++ [rb.f.len + 2]) rb.ds.tick i'.atype i'.sers rb.s rb.out] := by
-    have := eff_finish H Wf hfw A.length (i'.act (1 + rb.f.len) rb.s) (by rw [hfa]; exact post.good) rfl rb.out hns hps
-    rw [← hW2, hft, post.tick, hfa] at this
-    simpa only [AI.act, e1] using this
-  have hlen : (A ++ [i'.act 1 []]).length = A.length + 1 := by simp
-  refine ⟨?_, ?_, ?_, e.ctx.trans hfc, ?_, ?_, WOK.ofEff hfw e, ?_, hns⟩
-  · rw [e.stage, hfs, post.stage]
+  obtain ⟨Wx, hWx⟩ : ∃ Wx : World, Wx = { Wf with extCalls := (extOut env rb.out Wf.extCalls).2 } := ⟨_, rfl⟩
+  have hxs : Wx.stage = Wf.stage := by rw [hWx]
+  have hxt : Wx.tick = Wf.tick := by rw [hWx]
+  have hxn : Wx.nextUuid = Wf.nextUuid := by rw [hWx]
+  have hxc : Wx.ctx = Wf.ctx := by rw [hWx]
+  have hxx : Wx.extCalls = (extOut env rb.out rb.ds.ex).2 := by rw [hWx, hfx, post.ex]
+  have hxw : WOK Wx ds := ⟨by rw [hWx]; exact hfw.dests, by rw [hWx]; exact hfw.globals⟩
+  have e : Eff Wx W2
+      (Wb.acts.set h { i'.act (k + rb.f.len) rb.s with finished := true, last := k + rb.f.len + 1 }) 1 0
+      [endDict env σ i'.uuid (i'.level ++ [k + rb.f.len + 1]) rb.ds.tick i'.atype i'.sers rb.s
+        (extOut env rb.out rb.ds.ex).1 rb.out] := by
+    have := eff_finish H Wf hfw h (i'.act (k + rb.f.len) rb.s) (by rw [hfa]; exact post.good) rfl rb.out hns hps
+    rw [← hWx, ← hW2, hft, post.tick, hfa, hfx, post.ex] at this
+    simpa only [AI.act] using this
+  refine ⟨?_, ?_, ?_, (e.ctx.trans hxc).trans hfc, ?_, ?_, e.ext.trans hxx, WOK.ofEff hxw e, ?_, hns⟩
+  · rw [e.stage, hxs, hfs, post.stage]
     simp only [List.append_assoc]
     rfl
-  · intro h hh
-    rw [e.acts, List.getElem?_set_ne (by omega)]
-    have := post.frame h (by simp only [hA, hlen]; omega) (by omega)
-    simp only at this
-    rw [this, hA, List.getElem?_append_left hh]
+  · intro g hg hne
+    rw [e.acts, List.getElem?_set_ne (Ne.symm hne)]
+    exact post.frame g hg hne
   · rw [e.acts, List.length_set]
-    have := post.grow
-    simp only [hA, hlen] at this
-    exact this
-  · rw [e.tick, hft]; exact congrArg (· + 1) post.tick
-  · rw [e.nu, hfn]; exact post.nu
+    exact post.grow
+  · rw [e.tick, hxt, hft]; exact congrArg (· + 1) post.tick
+  · rw [e.nu, hxn, hfn]; exact post.nu
   · simp only [withBlock, hrun, hout, rb]
+
+/-- the part of `with <new action>:` after the action `h` has been created and started:
+enter, body, exit, `finish`.  `A` = the action table before `h` was appended. -/
+theorem run_action {env : Env} {σ : Nat → FV → FV} {ds : List Nat} (H : EnvOK env σ ds) {run : World → World × Outcome}
+    {den : DS → Fields → R} (hb : Emits env σ ds run den) (W1 : World) (A : List Act) (i' : AI) (d1 : DS)
+    (hw : WOK W1 ds) (hA : W1.acts = A ++ [i'.act 1 []]) (ht : W1.tick = d1.tick) (hn : W1.nextUuid = d1.nu)
+    (hx : W1.extCalls = d1.ex) (hwf : (den d1 []).wf = true)
+    (hps : (den d1 []).out = .ok → presentOpt (i'.sers.map (·.2)) (den d1 []).s = true) :
+    let W2 := (withBlock env W1 A.length run).1
+    let rb := den d1 []
+    W2.stage = W1.stage ++ (F.dicts env σ i'.uuid rb.f i'.level 2 ++
+      [endDict env σ i'.uuid (i'.level ++ [rb.f.len + 2]) rb.ds.tick i'.atype i'.sers rb.s (extOut env rb.out rb.ds.ex).1 rb.out]) ∧
+    (∀ h, h < A.length → W2.acts[h]? = A[h]?) ∧ A.length + 1 ≤ W2.acts.length ∧ W2.ctx = W1.ctx ∧
+    W2.tick = rb.ds.tick + 1 ∧ W2.nextUuid = rb.ds.nu ∧ W2.extCalls = (extOut env rb.out rb.ds.ex).2 ∧ WOK W2 ds ∧
+    (withBlock env W1 A.length run).2 = rb.out ∧ rb.out ≠ .stuck := by
+  intro W2 rb
+  obtain ⟨r1, r2, r3, r4, r5, r6, r7, r8, r9, r10⟩ :=
+    run_handle H hb W1 A.length i' 1 [] d1 hw (by simp [hA]) ht hn hx hwf hps
+  have e1 : 1 + rb.f.len + 1 = rb.f.len + 2 := by omega
+  have hlen : W1.acts.length = A.length + 1 := by simp [hA]
+  refine ⟨?_, ?_, ?_, r4, r5, r6, r7, r8, r9, r10⟩
+  · rw [r1]; simp only [rb, e1]
+  · intro h hh
+    rw [r2 h (by omega) (by omega), hA, List.getElem?_append_left hh]
+  · rw [← hlen]; exact r3
 
 /-- one message logged in the current action -/
 theorem post_leaf {env : Env} {σ : Nat → FV → FV} {ds : List Nat} {w w' : World} {c : Nat} {i : AI} {n : Nat} {s : Fields} {d : DS}
@@ -616,38 +739,19 @@ theorem post_leaf {env : Env} {σ : Nat → FV → FV} {ds : List Nat} {w w' : W
       [leafDict σ (i.act n s).uuid ((i.act n s).level ++ [(i.act n s).last + 1]) w.tick ms]) :
     Post env σ ds w w' c i n (leafR false d s ms) := by
   have hlt := lt_of_get pre.good
-  refine ⟨?_, ?_, ?_, ?_, e.ctx, ?_, ?_, pre.wok.ofEff e⟩
+  refine ⟨?_, ?_, ?_, ?_, e.ctx, ?_, ?_, ?_, pre.wok.ofEff e⟩
   · rw [e.stage, pre.tick]; simp [leafR, F.dicts, T.dicts, AI.act]
   · rw [e.acts, List.getElem?_set_self hlt]; simp [leafR, F.len, AI.act]
   · intro h _ hne; rw [e.acts, List.getElem?_set_ne (Ne.symm hne)]
   · rw [e.acts, List.length_set]; exact Nat.le_refl _
   · rw [e.tick, pre.tick]; rfl
   · rw [e.nu, pre.nu]; rfl
+  · rw [e.ext, pre.ex]; rfl
 
 theorem denS_with (env : Env) (cur : Option Exc) (inAct task : Bool) (sp : Spec) (body : Block) (d : DS) (s : Fields) :
     denS env cur inAct (.withAction task sp body) d s =
-      { f := if (task || !inAct) = true then
-              .sep d.nu (T.node sp d.tick
-                (denB env cur true body { tick := d.tick + 1, nu := if (task || !inAct) = true then d.nu + 1 else d.nu } []).ds.tick
-                (denB env cur true body { tick := d.tick + 1, nu := if (task || !inAct) = true then d.nu + 1 else d.nu } []).s
-                (denB env cur true body { tick := d.tick + 1, nu := if (task || !inAct) = true then d.nu + 1 else d.nu } []).out
-                (denB env cur true body { tick := d.tick + 1, nu := if (task || !inAct) = true then d.nu + 1 else d.nu } []).f) .nil
-            else
-              .own (T.node sp d.tick
-                (denB env cur true body { tick := d.tick + 1, nu := if (task || !inAct) = true then d.nu + 1 else d.nu } []).ds.tick
-                (denB env cur true body { tick := d.tick + 1, nu := if (task || !inAct) = true then d.nu + 1 else d.nu } []).s
-                (denB env cur true body { tick := d.tick + 1, nu := if (task || !inAct) = true then d.nu + 1 else d.nu } []).out
-                (denB env cur true body { tick := d.tick + 1, nu := if (task || !inAct) = true then d.nu + 1 else d.nu } []).f) .nil,
-        out := (denB env cur true body { tick := d.tick + 1, nu := if (task || !inAct) = true then d.nu + 1 else d.nu } []).out,
-        s := s,
-        ds := { tick := (denB env cur true body { tick := d.tick + 1, nu := if (task || !inAct) = true then d.nu + 1 else d.nu } []).ds.tick + 1,
-                nu := (denB env cur true body { tick := d.tick + 1, nu := if (task || !inAct) = true then d.nu + 1 else d.nu } []).ds.nu },
-        wf := presentOpt (sp.sers.map (·.1)) sp.fields &&
-          (denB env cur true body { tick := d.tick + 1, nu := if (task || !inAct) = true then d.nu + 1 else d.nu } []).wf &&
-          (match (denB env cur true body { tick := d.tick + 1, nu := if (task || !inAct) = true then d.nu + 1 else d.nu } []).out with
-           | .ok => presentOpt (sp.sers.map (·.2))
-              (denB env cur true body { tick := d.tick + 1, nu := if (task || !inAct) = true then d.nu + 1 else d.nu } []).s
-           | _ => true) } := by
+      withR env (task || !inAct) sp d s
+        (denB env cur true body { tick := d.tick + 1, nu := if (task || !inAct) = true then d.nu + 1 else d.nu, ex := d.ex } []) := by
   simp only [denS]
 
 theorem denS_try (env : Env) (cur : Option Exc) (inAct : Bool) (body handler : Block) (d : DS) (s : Fields) :
@@ -690,7 +794,8 @@ theorem emits_with {env : Env} {σ : Nat → FV → FV} {ds : List Nat} (H : Env
   intro w c i n s d pre hwf
   have hlt := lt_of_get pre.good
   rw [denS_with] at hwf ⊢
-  simp only [execS_with_eq]
+  simp only [execS_with_eq, withR]
+  simp only [withR] at hwf
   cases task with
   | false =>
     simp only [Bool.not_true, Bool.or_self, Bool.false_eq_true, if_false, Bool.and_eq_true] at hwf ⊢
@@ -703,12 +808,12 @@ theorem emits_with {env : Env} {σ : Nat → FV → FV} {ds : List Nat} (H : Env
     subst hh
     have hAl : (w.acts.set c { i.act n s with last := (i.act n s).last + 1 }).length = w.acts.length := List.length_set
     have ra := run_action H hb W1 (w.acts.set c { i.act n s with last := (i.act n s).last + 1 })
-      { uuid := i.uuid, level := i.level ++ [n + 1], atype := sp.atype, sers := sp.sers } { tick := d.tick + 1, nu := d.nu }
-      (pre.wok.ofEff e) e.acts (by rw [e.tick, pre.tick]) (by rw [e.nu, pre.nu]; rfl) hwf2
+      { uuid := i.uuid, level := i.level ++ [n + 1], atype := sp.atype, sers := sp.sers } { tick := d.tick + 1, nu := d.nu, ex := d.ex }
+      (pre.wok.ofEff e) e.acts (by rw [e.tick, pre.tick]) (by rw [e.nu, pre.nu]; rfl) (by rw [e.ext, pre.ex]) hwf2
       (fun ho => by simpa [ho] using hps)
     rw [hAl] at ra
-    obtain ⟨r1, r2, r3, r4, r5, r6, r7, r8, r9⟩ := ra
-    refine ⟨⟨?_, ?_, ?_, ?_, r4.trans e.ctx, r5, r6, r7⟩, r8, r9⟩
+    obtain ⟨r1, r2, r3, r4, r5, r6, rx, r7, r8, r9⟩ := ra
+    refine ⟨⟨?_, ?_, ?_, ?_, r4.trans e.ctx, r5, r6, rx, r7⟩, r8, r9⟩
     · rw [r1, e.stage, pre.tick]
       simp [F.dicts, T.dicts, AI.act, List.append_assoc]
     · rw [r2 c hlt, List.getElem?_set_self hlt]
@@ -726,11 +831,11 @@ theorem emits_with {env : Env} {σ : Nat → FV → FV} {ds : List Nat} (H : Env
     simp only at hh e
     subst hh
     have ra := run_action H hb W1 w.acts
-      { uuid := w.nextUuid, level := [], atype := sp.atype, sers := sp.sers } { tick := d.tick + 1, nu := d.nu + 1 }
-      (pre.wok.ofEff e) e.acts (by rw [e.tick, pre.tick]) (by rw [e.nu, pre.nu]) hwf2
+      { uuid := w.nextUuid, level := [], atype := sp.atype, sers := sp.sers } { tick := d.tick + 1, nu := d.nu + 1, ex := d.ex }
+      (pre.wok.ofEff e) e.acts (by rw [e.tick, pre.tick]) (by rw [e.nu, pre.nu]) (by rw [e.ext, pre.ex]) hwf2
       (fun ho => by simpa [ho] using hps)
-    obtain ⟨r1, r2, r3, r4, r5, r6, r7, r8, r9⟩ := ra
-    refine ⟨⟨?_, ?_, ?_, ?_, r4.trans e.ctx, r5, r6, r7⟩, r8, r9⟩
+    obtain ⟨r1, r2, r3, r4, r5, r6, rx, r7, r8, r9⟩ := ra
+    refine ⟨⟨?_, ?_, ?_, ?_, r4.trans e.ctx, r5, r6, rx, r7⟩, r8, r9⟩
     · rw [r1, e.stage, pre.tick, pre.nu]
       simp [F.dicts, T.dicts, T.rootLevel, List.append_assoc]
     · rw [r2 c hlt]
@@ -769,7 +874,7 @@ theorem execS_emits {env : Env} {σ : Nat → FV → FV} {ds : List Nat} (H : En
     have hd : denS env cur true (.raise k) d s = { f := .nil, out := .raised (.user k), s := s, ds := d, wf := true } := by
       simp only [denS]
     rw [hd]
-    exact ⟨by simpa only [execS] using Post.same pre rfl rfl rfl rfl rfl rfl rfl _ _, by simp [execS], by simp⟩
+    exact ⟨by simpa only [execS] using Post.same pre rfl rfl rfl rfl rfl rfl rfl rfl _ _, by simp [execS], by simp⟩
   | tryCatch body handler =>
     intro w c i n s d pre hwf
     simp only [Stmt.structured, Bool.and_eq_true] at hs
@@ -802,11 +907,13 @@ theorem execS_emits {env : Env} {σ : Nat → FV → FV} {ds : List Nat} (H : En
     cases cur with
     | none => simp at hcur; exact absurd hs (by simp [hcur])
     | some e =>
-      have hd : denS env (some e) true .writeTraceback d s = leafR false d s (tbSpec env e) := by simp only [denS]; rfl
+      have hd : denS env (some e) true .writeTraceback d s = tbR env false d s e := by simp only [denS]; rfl
       rw [hd]
-      have ee := eff_log_in H w pre.wok c (i.act n s) pre.ctx pre.good (tbSpec env e) rfl
-      rw [← writeTraceback_eq H] at ee
-      exact ⟨by simpa only [execS] using post_leaf pre (tbSpec env e) ee, by simp [execS, leafR], by simp [leafR]⟩
+      simp only [execS, writeTraceback_eq H, pre.ex, tbR]
+      have pre' : Pre ds ({ w with extCalls := (extOf env e d.ex).2 } : World) c i n s { d with ex := (extOf env e d.ex).2 } :=
+        ⟨⟨pre.wok.dests, pre.wok.globals⟩, pre.good, pre.ctx, pre.tick, pre.nu, rfl⟩
+      have ee := eff_log_in H _ pre'.wok c (i.act n s) pre'.ctx pre'.good (tbSpec env e (extOf env e d.ex).1) rfl
+      exact ⟨(post_leaf pre' _ ee).ofExt, by simp [leafR], by simp [leafR]⟩
   | addSuccess x fs =>
     cases x with
     | some x => simp [Stmt.structured] at hs
@@ -817,7 +924,7 @@ theorem execS_emits {env : Env} {σ : Nat → FV → FV} {ds : List Nat} (H : En
         simp only [denS]
       rw [hd]
       simp only [execS, pre.ctx, pre.good]
-      refine ⟨⟨by simp [F.dicts], ?_, ?_, by simp, pre.ctx.symm, pre.tick, pre.nu, ⟨pre.wok.dests, pre.wok.globals⟩⟩, by simp, by simp⟩
+      refine ⟨⟨by simp [F.dicts], ?_, ?_, by simp, pre.ctx.symm, pre.tick, pre.nu, pre.ex, ⟨pre.wok.dests, pre.wok.globals⟩⟩, by simp, by simp⟩
       · simp [List.getElem?_set_self hlt, F.len, AI.act]
       · intro h _ hne
         simp [List.getElem?_set_ne (Ne.symm hne)]
@@ -828,7 +935,7 @@ theorem execS_emits {env : Env} {σ : Nat → FV → FV} {ds : List Nat} (H : En
     rw [hd]
     simp only [execS]
     refine ⟨?_, by simp, by simp⟩
-    refine Post.same pre ?_ ?_ ?_ ?_ ?_ ?_ ?_ _ _ <;> rfl
+    refine Post.same pre ?_ ?_ ?_ ?_ ?_ ?_ ?_ ?_ _ _ <;> rfl
   | startAs x task sp => simp [Stmt.structured] at hs
   | withHandle x body => simp [Stmt.structured] at hs
   | inContext x body => simp [Stmt.structured] at hs
@@ -852,7 +959,7 @@ theorem execB_emits {env : Env} {σ : Nat → FV → FV} {ds : List Nat} (H : En
     intro w c i n s d pre _
     have hd : denB env cur true .nil d s = { f := .nil, out := .ok, s := s, ds := d, wf := true } := by simp only [denB]
     rw [hd]
-    exact ⟨by simpa only [execB] using Post.same pre rfl rfl rfl rfl rfl rfl rfl _ _, by simp [execB], by simp⟩
+    exact ⟨by simpa only [execB] using Post.same pre rfl rfl rfl rfl rfl rfl rfl rfl _ _, by simp [execB], by simp⟩
   | cons st rest =>
     intro w c i n s d pre hwf
     simp only [Block.structured, Bool.and_eq_true] at hs
@@ -888,6 +995,7 @@ structure PreT (ds : List Nat) (w : World) (d : DS) : Prop where
   ctx : w.ctx = none
   tick : w.tick = d.tick
   nu : w.nextUuid = d.nu
+  ex : w.extCalls = d.ex
 
 /-- after running something whose denotation is `r` outside any action: only separate trees -/
 structure PostT (env : Env) (σ : Nat → FV → FV) (ds : List Nat) (w w' : World) (r : R) : Prop where
@@ -898,7 +1006,12 @@ structure PostT (env : Env) (σ : Nat → FV → FV) (ds : List Nat) (w w' : Wor
   ctx : w'.ctx = w.ctx
   tick : w'.tick = r.ds.tick
   nu : w'.nextUuid = r.ds.nu
+  ex : w'.extCalls = r.ds.ex
   wok : WOK w' ds
+
+theorem PostT.ofExt {env : Env} {σ : Nat → FV → FV} {ds : List Nat} {w w' : World} {r : R} {k : Nat}
+    (p : PostT env σ ds { w with extCalls := k } w' r) : PostT env σ ds w w' r :=
+  ⟨p.stage, p.flat, p.frame, p.grow, p.ctx, p.tick, p.nu, p.ex, p.wok⟩
 
 def EmitsT (env : Env) (σ : Nat → FV → FV) (ds : List Nat) (run : World → World × Outcome) (den : DS → Fields → R) : Prop :=
   ∀ (w : World) (s : Fields) (d : DS), PreT ds w d → (den d s).wf = true →
@@ -906,22 +1019,23 @@ def EmitsT (env : Env) (σ : Nat → FV → FV) (ds : List Nat) (run : World →
 
 theorem PostT.pre {env : Env} {σ : Nat → FV → FV} {ds : List Nat} {w w' : World} {r : R}
     (p : PostT env σ ds w w' r) (hc : w.ctx = none) : PreT ds w' r.ds :=
-  ⟨p.wok, p.ctx.trans hc, p.tick, p.nu⟩
+  ⟨p.wok, p.ctx.trans hc, p.tick, p.nu, p.ex⟩
 
 theorem PostT.trans' {env : Env} {σ : Nat → FV → FV} {ds : List Nat} {w w1 w2 : World}
     {r1 r2 : R} (h1 : PostT env σ ds w w1 r1) (h2 : PostT env σ ds w1 w2 r2) (b : Bool) :
     PostT env σ ds w w2 { f := r1.f.append r2.f, out := r2.out, s := r2.s, ds := r2.ds, wf := b } := by
-  refine ⟨?_, by rw [F.len_append, h1.flat, h2.flat], ?_, Nat.le_trans h1.grow h2.grow, h2.ctx.trans h1.ctx, h2.tick, h2.nu, h2.wok⟩
+  refine ⟨?_, by rw [F.len_append, h1.flat, h2.flat], ?_, Nat.le_trans h1.grow h2.grow, h2.ctx.trans h1.ctx, h2.tick, h2.nu, h2.ex, h2.wok⟩
   · rw [h2.stage, h1.stage, F.dicts_append, List.append_assoc, h1.flat]
   · intro h hh
     rw [h2.frame h (Nat.lt_of_lt_of_le hh h1.grow), h1.frame h hh]
 
 theorem PostT.same {env : Env} {σ : Nat → FV → FV} {ds : List Nat} {w w' : World} {s : Fields} {d : DS}
     (pre : PreT ds w d) (ha : w'.acts = w.acts) (hs : w'.stage = w.stage) (hc : w'.ctx = w.ctx) (ht : w'.tick = w.tick)
-    (hn : w'.nextUuid = w.nextUuid) (hd : w'.dests = w.dests) (hg : w'.globals = w.globals) (o : Outcome) (b : Bool) :
+    (hn : w'.nextUuid = w.nextUuid) (hx : w'.extCalls = w.extCalls) (hd : w'.dests = w.dests) (hg : w'.globals = w.globals)
+    (o : Outcome) (b : Bool) :
     PostT env σ ds w w' { f := .nil, out := o, s := s, ds := d, wf := b } :=
   ⟨by simp [F.dicts, hs], rfl, fun h _ => by rw [ha], Nat.le_of_eq (by rw [ha]), hc, ht.trans pre.tick,
-   hn.trans pre.nu, ⟨by rw [hd]; exact pre.wok.dests, by rw [hg]; exact pre.wok.globals⟩⟩
+   hn.trans pre.nu, hx.trans pre.ex, ⟨by rw [hd]; exact pre.wok.dests, by rw [hg]; exact pre.wok.globals⟩⟩
 
 theorem emitsT_seq {env : Env} {σ : Nat → FV → FV} {ds : List Nat} {w w1 : World} {r1 : R}
     {run2 : World → World × Outcome} {den2 : DS → Fields → R} (hc : w.ctx = none)
@@ -938,12 +1052,13 @@ theorem postT_leaf {env : Env} {σ : Nat → FV → FV} {ds : List Nat} {w w' : 
     (pre : PreT ds w d) (ms : MSpec)
     (e : Eff w w' (w.acts ++ [{ uuid := w.nextUuid, level := [], last := 1 }]) 1 1 [leafDict σ w.nextUuid [1] w.tick ms]) :
     PostT env σ ds w w' (leafR true d s ms) := by
-  refine ⟨?_, rfl, ?_, ?_, e.ctx, ?_, ?_, pre.wok.ofEff e⟩
+  refine ⟨?_, rfl, ?_, ?_, e.ctx, ?_, ?_, ?_, pre.wok.ofEff e⟩
   · rw [e.stage, pre.tick, pre.nu]; simp [leafR, F.dicts, T.dicts, T.rootLevel]
   · intro h hh; rw [e.acts, List.getElem?_append_left hh]
   · rw [e.acts]; simp
   · rw [e.tick, pre.tick]; rfl
   · rw [e.nu, pre.nu]; rfl
+  · rw [e.ext, pre.ex]; rfl
 
 /-- `with start_action(..)/start_task(..): body` outside any action: a new tree -/
 theorem emitsT_with {env : Env} {σ : Nat → FV → FV} {ds : List Nat} (H : EnvOK env σ ds) (cur : Option Exc) (task : Bool)
@@ -951,7 +1066,8 @@ theorem emitsT_with {env : Env} {σ : Nat → FV → FV} {ds : List Nat} (H : En
     EmitsT env σ ds (fun w => execS env cur w (.withAction task sp body)) (denS env cur false (.withAction task sp body)) := by
   intro w s d pre hwf
   rw [denS_with] at hwf ⊢
-  simp only [execS_with_eq]
+  simp only [execS_with_eq, withR]
+  simp only [withR] at hwf
   simp only [Bool.not_false, Bool.or_true, if_true, Bool.and_eq_true] at hwf ⊢
   obtain ⟨⟨hp1, hwf2⟩, hps⟩ := hwf
   obtain ⟨hh, e⟩ := eff_start_fresh H w pre.wok task (Or.inr pre.ctx) sp hp1
@@ -961,11 +1077,11 @@ theorem emitsT_with {env : Env} {σ : Nat → FV → FV} {ds : List Nat} (H : En
   simp only at hh e
   subst hh
   have ra := run_action H hb W1 w.acts
-    { uuid := w.nextUuid, level := [], atype := sp.atype, sers := sp.sers } { tick := d.tick + 1, nu := d.nu + 1 }
-    (pre.wok.ofEff e) e.acts (by rw [e.tick, pre.tick]) (by rw [e.nu, pre.nu]) hwf2
+    { uuid := w.nextUuid, level := [], atype := sp.atype, sers := sp.sers } { tick := d.tick + 1, nu := d.nu + 1, ex := d.ex }
+    (pre.wok.ofEff e) e.acts (by rw [e.tick, pre.tick]) (by rw [e.nu, pre.nu]) (by rw [e.ext, pre.ex]) hwf2
     (fun ho => by simpa [ho] using hps)
-  obtain ⟨r1, r2, r3, r4, r5, r6, r7, r8, r9⟩ := ra
-  refine ⟨⟨?_, rfl, r2, Nat.le_of_succ_le r3, r4.trans e.ctx, r5, r6, r7⟩, r8, r9⟩
+  obtain ⟨r1, r2, r3, r4, r5, r6, rx, r7, r8, r9⟩ := ra
+  refine ⟨⟨?_, rfl, r2, Nat.le_of_succ_le r3, r4.trans e.ctx, r5, r6, rx, r7⟩, r8, r9⟩
   rw [r1, e.stage, pre.tick, pre.nu]
   simp [F.dicts, T.dicts, T.rootLevel, List.append_assoc]
 
@@ -989,7 +1105,7 @@ theorem execS_top {env : Env} {σ : Nat → FV → FV} {ds : List Nat} (H : EnvO
     rw [hd]
     simp only [execS]
     refine ⟨?_, by simp, by simp⟩
-    refine PostT.same pre ?_ ?_ ?_ ?_ ?_ ?_ ?_ _ _ <;> rfl
+    refine PostT.same pre ?_ ?_ ?_ ?_ ?_ ?_ ?_ ?_ _ _ <;> rfl
   | tryCatch body handler =>
     intro w s d pre hwf
     simp only [Stmt.structured, Bool.and_eq_true] at hs
@@ -1022,11 +1138,13 @@ theorem execS_top {env : Env} {σ : Nat → FV → FV} {ds : List Nat} (H : EnvO
     cases cur with
     | none => simp at hcur; exact absurd hs (by simp [hcur])
     | some e =>
-      have hd : denS env (some e) false .writeTraceback d s = leafR true d s (tbSpec env e) := by simp only [denS]; rfl
+      have hd : denS env (some e) false .writeTraceback d s = tbR env true d s e := by simp only [denS]; rfl
       rw [hd]
-      have ee := eff_log_out H w pre.wok pre.ctx (tbSpec env e) rfl
-      rw [← writeTraceback_eq H] at ee
-      exact ⟨by simpa only [execS] using postT_leaf pre (tbSpec env e) ee, by simp [execS, leafR], by simp [leafR]⟩
+      simp only [execS, writeTraceback_eq H, pre.ex, tbR]
+      have pre' : PreT ds ({ w with extCalls := (extOf env e d.ex).2 } : World) { d with ex := (extOf env e d.ex).2 } :=
+        ⟨⟨pre.wok.dests, pre.wok.globals⟩, pre.ctx, pre.tick, pre.nu, rfl⟩
+      have ee := eff_log_out H _ pre'.wok pre'.ctx (tbSpec env e (extOf env e d.ex).1) rfl
+      exact ⟨(postT_leaf pre' _ ee).ofExt, by simp [leafR], by simp [leafR]⟩
   | addSuccess x fs => cases x <;> simp [Stmt.structured] at hs
   | probe k =>
     intro w s d pre _
@@ -1035,7 +1153,7 @@ theorem execS_top {env : Env} {σ : Nat → FV → FV} {ds : List Nat} (H : EnvO
     rw [hd]
     simp only [execS]
     refine ⟨?_, by simp, by simp⟩
-    refine PostT.same pre ?_ ?_ ?_ ?_ ?_ ?_ ?_ _ _ <;> rfl
+    refine PostT.same pre ?_ ?_ ?_ ?_ ?_ ?_ ?_ ?_ _ _ <;> rfl
   | startAs x task sp => simp [Stmt.structured] at hs
   | withHandle x body => simp [Stmt.structured] at hs
   | inContext x body => simp [Stmt.structured] at hs
@@ -1060,7 +1178,7 @@ theorem execB_top {env : Env} {σ : Nat → FV → FV} {ds : List Nat} (H : EnvO
     rw [hd]
     simp only [execB]
     refine ⟨?_, by simp, by simp⟩
-    refine PostT.same pre ?_ ?_ ?_ ?_ ?_ ?_ ?_ _ _ <;> rfl
+    refine PostT.same pre ?_ ?_ ?_ ?_ ?_ ?_ ?_ ?_ _ _ <;> rfl
   | cons st rest =>
     intro w s d pre hwf
     simp only [Block.structured, Bool.and_eq_true] at hs
